@@ -96,16 +96,15 @@ def generate(rng, tier):
             if m.count(123) > 12 or m.count(42) > 6:
                 continue
         args[ai] = enc(m)
-        # the extracted model uses the standard library's quadratic List.rev: inputs with very long lines are run on the
-        # implementation only (no-panic / no-hang oracle), everything else is also compared with the model
+        # 64 KiB inputs are compared with the model too (the models reverse with the linear [frev])
         huge = len(m) > 6000
-        cases.append(Case(c.op, args, mop=("" if huge else None), meta={"nt": True, "src": "fuzz-huge" if huge else "fuzz"}))
+        cases.append(Case(c.op, args, meta={"nt": True, "src": "fuzz-huge" if huge else "fuzz"}))
     # oversized inputs
     big = "9" * 40
     cases.append(Case("pat.match", [enc("p>=" + big), enc("p-" + big + "nb" + big)], meta={"nt": True, "src": "big"}))
     cases.append(Case("sum.parse", [enc("SIZE_PKG=" + big + "\n")], meta={"nt": True, "src": "big"}))
-    cases.append(Case("pl.parse", [enc(b"@name " + b"x" * 70000 + b"\n" + b" " * 70000)], mop="", meta={"nt": True, "src": "big"}))
-    cases.append(Case("di.parse", [enc(b"SHA1 (" + b"n" * 70000 + b") = " + b"a" * 70000)], mop="", meta={"nt": True, "src": "big"}))
+    cases.append(Case("pl.parse", [enc(b"@name " + b"x" * 70000 + b"\n" + b" " * 70000)], meta={"nt": True, "src": "big"}))
+    cases.append(Case("di.parse", [enc(b"SHA1 (" + b"n" * 70000 + b") = " + b"a" * 70000)], meta={"nt": True, "src": "big"}))
     cases.append(Case("pl.parse", [enc(b"@name " + b"x" * 3000 + b"\n" + b" " * 3000)], meta={"nt": True, "src": "big"}))
     cases.append(Case("di.parse", [enc(b"SHA1 (" + b"n" * 3000 + b") = " + b"a" * 3000)], meta={"nt": True, "src": "big"}))
     cases.append(Case("pat.match", [enc("{a,b}" * 12 + "-[0-9]*"), enc("ababababababababababab-1")], meta={"nt": True, "src": "big"}))
